@@ -427,7 +427,7 @@ fn episode(ctx: &Ctx, case: u64, out: &mut Out) {
                 detail["plan"] = plan_json(&plan);
                 out.violation(&f.sig, format!("case {} crash point {} ({}, {}): {}", case, pi, phase, vname, f.desc), ctx.replay(case, detail));
             }
-            if out.samples.len() < 3 && (pi % 37 == 5) {
+            if out.samples.len() < 3 && (pi % 37 == 5 || out.samples.is_empty()) {
                 out.sample(json!({"case": case, "crash_point": pi, "variant": vname, "phase": phase, "last_call": last.map(|e| e.brief()), "acknowledged_ops": b.acked, "in_flight": b.inflight.map(|i| if i == usize::MAX { "initial open".to_string() } else { plan.ops[i].brief() }), "directory": model.listing(), "plan_head": plan.ops.iter().take(12).map(|o| o.brief()).collect::<Vec<_>>()}));
             }
         }
